@@ -3,7 +3,7 @@ usage: tools/item.py <check module> <fn> '<json params>' [defer_depth]"""
 import sys, time, json
 sys.path.insert(0, '/verif'); sys.path.insert(0, '/repo')
 from pysx import harness
-it = {"mod": "checks." + sys.argv[1], "fn": sys.argv[2], "params": json.loads(sys.argv[3])}
+it = {"mod": "checks." + sys.argv[1], "fn": sys.argv[2], "params": json.loads(sys.argv[3]), "yield_s": 1e9, "pid": sys.argv[1]}
 if len(sys.argv) > 4:
     it["defer_depth"] = int(sys.argv[4])
 r = harness.run_item(it)
